@@ -29,6 +29,11 @@ pub const BIG_CASES: &[&str] = &[
     "boxed_into_iter_roundtrip_u32_4MiB",
     "box_arr_repeat_expr_u64_8MiB",
     "box_arr_repeat_u8x16_4MiB",
+    "boxed_generate_dropglue_4MiB",
+    "default_boxed_dropglue_4MiB",
+    "boxed_from_iter_dropglue_4MiB",
+    "box_arr_repeat_dropglue_4MiB",
+    "boxed_map_dropglue_4MiB",
 ];
 /// Few, large elements (an array as large as the whole stack). In an unoptimised build every frame
 /// between the caller's generator and the heap slot holds its own copy of the element, so correct
